@@ -66,6 +66,9 @@ T('seq-ext-mixed', 'A ::= SEQUENCE { a BOOLEAN, ..., b INTEGER (0..300), [[ c BO
   'e NULL }', feats={'seq', 'ext', 'group'})
 T('seq-ext-tail', 'A ::= SEQUENCE { a BOOLEAN, ..., b INTEGER (0..7), ..., z INTEGER (0..3) }',
   feats={'seq', 'ext'})
+# more than 4096 bits before a second append: the PER/UPER encoder spills its accumulator into chunks
+T('seq-ext-spill', 'A ::= SEQUENCE { a BOOLEAN, ..., big SEQUENCE { o OCTET STRING (SIZE (520)), n INTEGER (0..255), '
+  'p BOOLEAN }, t INTEGER (0..300) OPTIONAL }', feats={'seq', 'ext', 'spill'})
 T('seq-ext-empty', 'A ::= SEQUENCE { a INTEGER (0..7), ... }', feats={'seq', 'ext'})
 for _n in (7, 8, 9):
     # presence of x0..x(n-2) is tied to one flag (see Gen.tie); the last one is free
